@@ -350,10 +350,46 @@ func runC11(env0 *env, w *bufio.Writer, n int, corpus string) {
 				b = e.genBytes()
 			}
 			e.st.Hit("kind:EQ")
+			// one time in three the two buffers are views of one ArrayBuffer (same start and different lengths,
+			// overlapping, or identical): equality is about bytes, not about where they live
+			shared := r.Chance(33)
+			var base []byte
+			offA, offB := 0, 0
+			if shared {
+				base = r.Bytes(2 + r.Intn(10))
+				offA = r.Intn(len(base))
+				la := r.Intn(len(base) - offA + 1)
+				offB = offA
+				if r.Chance(40) {
+					offB = r.Intn(len(base))
+				}
+				lb := r.Intn(len(base) - offB + 1)
+				if r.Chance(25) {
+					lb = la
+					if offB+lb > len(base) {
+						lb = len(base) - offB
+					}
+				}
+				a, b = base[offA:offA+la], base[offB:offB+lb]
+				e.st.Hit("kind:EQ-shared-views")
+			}
 			out := e.call(func() (string, error) {
 				bo := e.bufOf(a)
+				bo2 := e.bufOf(b)
+				if shared {
+					ab := e.vm.ToValue(e.vm.NewArrayBuffer(append([]byte{}, base...)))
+					v1, err := from(bufCtor, ab, e.vm.ToValue(offA), e.vm.ToValue(len(a)))
+					if err != nil {
+						return "", err
+					}
+					v2, err := from(bufCtor, ab, e.vm.ToValue(offB), e.vm.ToValue(len(b)))
+					if err != nil {
+						return "", err
+					}
+					bo, bo2 = v1.ToObject(e.vm), v2.ToObject(e.vm)
+				}
 				eq, _ := goja.AssertFunction(bo.Get("equals"))
-				v, err := eq(bo, e.bufOf(b))
+				v, err := eq(bo, bo2)
 				if err != nil {
 					return "", err
 				}
